@@ -22,6 +22,7 @@ import (
 	"github.com/git-lfs/git-lfs/v3/creds"
 	"github.com/git-lfs/git-lfs/v3/errors"
 	"github.com/git-lfs/git-lfs/v3/tr"
+	"github.com/git-lfs/git-lfs/v3/verifhook"
 	"github.com/rubyist/tracerx"
 	"golang.org/x/net/http2"
 )
@@ -396,6 +397,10 @@ func (c *Client) configureProtocols(u *url.URL, transport *http.Transport) error
 }
 
 func (c *Client) Transport(u *url.URL, access creds.AccessMode) (http.RoundTripper, error) {
+	if rt := verifhook.Transport(u.Scheme, u.Host); rt != nil {
+		return rt, nil
+	}
+
 	host := u.Host
 
 	if c.gitEnv == nil {
